@@ -19,7 +19,7 @@ from lv.gen.printer import to_source
 from lv.harness.envs import corpus
 from lv.harness.envs import run_coro
 
-from liquid2 import DictLoader
+from liquid2 import CachingChoiceLoader, CachingDictLoader, ChoiceLoader, DictLoader
 from liquid2.exceptions import LiquidError
 from liquid2.shopify import Environment as ShopifyEnvironment
 
@@ -118,7 +118,15 @@ class C12(Prop):
     def budget_s(self, tier: str) -> float:
         return 240 if tier == "quick" else 3000
 
-    def _env(self, templates: dict[str, str]) -> Any:
+    def _env(self, templates: dict[str, str], src: str = "") -> Any:
+        # the template reaches its environment's loader when pickled: rotate through the loader kinds
+        k = len(src) % 5
+        if k == 0:
+            return ShopifyEnvironment(loader=CachingDictLoader(templates))
+        if k == 1:
+            return ShopifyEnvironment(loader=CachingChoiceLoader([DictLoader({}), DictLoader(templates)]))
+        if k == 2:
+            return ShopifyEnvironment(loader=ChoiceLoader([DictLoader(templates)]))
         return ShopifyEnvironment(loader=DictLoader(templates))
 
     def _roundtrip(self, env: Any, src: str, datas: list[dict[str, Any]]) -> tuple[str, str] | None:
@@ -157,7 +165,7 @@ class C12(Prop):
             src = case["src"]
             templates = dict(case.get("templates") or {})
             prog = None
-        env = self._env(templates)
+        env = self._env(templates, src)
         try:
             t0 = env.from_string(src)
         except LiquidError:
